@@ -355,7 +355,8 @@ def finish(ctx, mod, build, gen_status, out, search=None):
                 continue
             seen.add(key)
             path = write_replay(ctx, 'violation', {'property': ctx.pid, 'seed': ctx.seed, 'tier': ctx.tier, **v})
-            lines.append('VIOLATION property=%s replay=%s' % (ctx.pid, path))
+            if len([l for l in lines if l.startswith('VIOLATION')]) < 12:       # keep the output readable; every replay file is written
+                lines.append('VIOLATION property=%s replay=%s' % (ctx.pid, path))
             exit_code = 1
         return fresh
 
